@@ -4,7 +4,11 @@
 // blocks in conn.Write), flood the server with frames that elicit stream-less control frames, and
 // observe sc.queuedControlFrames / len(writeSched.zero) on the serve goroutine (existing testHookCh).
 //
-// op tokens: stall | p<n> | dc<id>:<len> | wz<id> | st | rel | o        (see lean/BfeVerif/C37/Driver.lean)
+// op tokens: stall | p<n> | dc<id>:<len> | wz<id> | st | rel | o
+//
+//	stream-error floods: dcx<n>:<len> (n DATA frames on a stream that does not exist), wzx<n> (n zero WINDOW_UPDATEs),
+//	hh (open a stream, HEADERS again), wo (open, WINDOW_UPDATE overflow), od (open with content-length 0, DATA 1),
+//	hd<len> (open with END_STREAM, DATA len)                          (see lean/BfeVerif/C37/Driver.lean)
 package main
 
 import (
@@ -21,19 +25,42 @@ import (
 	"github.com/bfenetworks/bfe/bfe_http2"
 )
 
-type nopHandler struct{}
+// blockHandler never answers (a response would add frames at times the script does not control)
+type blockHandler struct{ quit chan struct{} }
 
-func (nopHandler) ServeHTTP(w http.ResponseWriter, r *http.Request) {}
+func (h blockHandler) ServeHTTP(w http.ResponseWriter, r *http.Request) { <-h.quit }
+
+const ghostStream = 1000001 // a stream id the scripts never open
 
 func exec(op string) string {
 	return vh.SafeTimeout(300*time.Second, func() string { return exec1(op) })
 }
 
 func exec1(op string) string {
+	quit := make(chan struct{})
+	defer close(quit)
 	cl := h2c33.Start(nil, nil, func(c net.Conn) *bfe_http2.VerifC33Conn {
-		return bfe_http2.VerifC33Serve(c, nopHandler{}, &bfe_http2.Server{})
+		return bfe_http2.VerifC33Serve(c, blockHandler{quit}, &bfe_http2.Server{})
 	})
 	defer cl.Close()
+	nextID := uint32(1)
+	open := func(decl int64, end bool) (uint32, bool) {
+		id := nextID
+		nextID += 2
+		return id, cl.Send(cl.Headers(id, decl, end))
+	}
+	bulk := func(one []byte, n int) bool {
+		ok := true
+		for n > 0 && ok {
+			k := n
+			if k > 2000 {
+				k = 2000
+			}
+			ok = cl.Send(bytes.Repeat(one, k))
+			n -= k
+		}
+		return ok
+	}
 	if !cl.Send(h2c33.Preface()) || !cl.Sync() {
 		return "no-preface"
 	}
@@ -91,6 +118,39 @@ func exec1(op string) string {
 			} else {
 				toks = append(toks, fmt.Sprintf("q=%d,z=%d", s.Queued, s.ZeroLen))
 			}
+		case strings.HasPrefix(t, "dcx"):
+			f := strings.Split(t[3:], ":")
+			if len(f) != 2 {
+				return "bad-op"
+			}
+			n, e1 := strconv.Atoi(f[0])
+			ln, e2 := strconv.Atoi(f[1])
+			if e1 != nil || e2 != nil {
+				return "bad-op"
+			}
+			toks = append(toks, alive(bulk(h2c33.Data(ghostStream, ln, -1, false), n)))
+		case strings.HasPrefix(t, "wzx"):
+			n, err := strconv.Atoi(t[3:])
+			if err != nil {
+				return "bad-op"
+			}
+			toks = append(toks, alive(bulk(h2c33.WindowUpdate(ghostStream, 0), n)))
+		case t == "hh":
+			id, ok := open(-1, false)
+			toks = append(toks, alive(ok && cl.Send(cl.Headers(id, -1, false))))
+		case t == "wo":
+			id, ok := open(-1, false)
+			toks = append(toks, alive(ok && cl.Send(h2c33.WindowUpdate(id, 1<<31-1))))
+		case t == "od":
+			id, ok := open(0, false)
+			toks = append(toks, alive(ok && cl.Send(h2c33.Data(id, 1, -1, false))))
+		case strings.HasPrefix(t, "hd"):
+			ln, err := strconv.Atoi(t[2:])
+			if err != nil {
+				return "bad-op"
+			}
+			id, ok := open(-1, true)
+			toks = append(toks, alive(ok && cl.Send(h2c33.Data(id, ln, -1, false))))
 		case strings.HasPrefix(t, "dc"):
 			f := strings.Split(t[2:], ":")
 			if len(f) != 2 {
@@ -113,16 +173,7 @@ func exec1(op string) string {
 			if err != nil {
 				return "bad-op"
 			}
-			one := h2c33.Ping(false)
-			ok := true
-			for n > 0 && ok {
-				k := n
-				if k > 2000 {
-					k = 2000
-				}
-				ok = cl.Send(bytes.Repeat(one, k))
-				n -= k
-			}
+			ok := bulk(h2c33.Ping(false), n)
 			toks = append(toks, alive(ok))
 		default:
 			return "bad-op"
@@ -147,7 +198,57 @@ func gen(r *vh.Rand) string {
 			add("p%d", r.Range(1, 20))
 		}
 	}
-	switch k := r.Intn(10); {
+	// an elicitor whose control frame comes from a stream-error path; returns the frames it queues
+	serr := func() int {
+		switch r.Intn(6) {
+		case 0:
+			add("hh")
+			return 1
+		case 1:
+			add("wo")
+			return 1
+		case 2:
+			add("od")
+			return 2
+		case 3:
+			ln := r.Intn(2)
+			add("hd%d", ln)
+			return 1 + ln
+		case 4:
+			add("dc%d:1", 1+2*r.Intn(9))
+			return 2
+		default:
+			add("wz%d", 1+2*r.Intn(9))
+			return 1
+		}
+	}
+	switch k := r.Intn(14); {
+	case k >= 10:
+		// flood made ONLY of frames answered through a stream error (RST_STREAM), under a stalled writer
+		add("stall")
+		used := 0
+		for i := r.Intn(5); i > 0; i-- {
+			used += serr()
+		}
+		rest := limit + r.Range(-4, 2) - used
+		switch r.Intn(3) {
+		case 0: // DATA on a closed stream: 2 frames each
+			add("dcx%d:1", rest/2)
+			if rest%2 == 1 {
+				add("wzx1")
+			}
+		case 1: // zero WINDOW_UPDATE: 1 frame each
+			add("wzx%d", rest)
+		default: // mix
+			a := r.Range(0, rest/2)
+			add("dcx%d:%d", a, 1)
+			add("wzx%d", rest-2*a)
+		}
+		add("o")
+		for i := r.Range(1, 5); i > 0; i-- {
+			serr()
+			add("o")
+		}
 	case k < 4:
 		// flood under a stalled writer, aiming at the limit boundary
 		for i := r.Intn(3); i > 0; i-- {
